@@ -20,8 +20,9 @@ RULES = {
     'R9': 'no notification for something that is not an entry: the skiplist node destructor does not announce a deletion for the list header',
     'R10': 'trie iteration is in ascending unsigned-byte order (as strcmp): the order in which trie_node_next visits child indexes, mapped back through the character-to-index function used by new_child_node, is 0..255 ascending (evaluated exhaustively over all 256 byte values); the sibling scan continues that same order',
     'R11': 'trie notifier add and delete resolve the key the same way (exact lookup)',
+    'R12': 'looking a key up does not change the map: the lookup/get functions of all three implementations store to no map or node field and call no list mutator, allocator or release function (an iteration in progress follows those links)',
 }
-FLOORS = {'R1': 3, 'R2': 6, 'R3': 6, 'R4': 6, 'R5': 9, 'R6': 3, 'R7': 4, 'R8': 3, 'R9': 1, 'R10': 3, 'R11': 1}
+FLOORS = {'R1': 3, 'R2': 6, 'R3': 6, 'R4': 6, 'R5': 9, 'R6': 3, 'R7': 4, 'R8': 3, 'R9': 1, 'R10': 3, 'R11': 1, 'R12': 6}
 
 MAPS = {
     'hashtable': dict(file='lib/hashtable.c', create='qb_hashtable_create', rm='hashtable_rm_with_hash', put='hashtable_put',
@@ -64,6 +65,7 @@ def run(ctx):
     r9(ctx)
     r10(ctx)
     r11(ctx)
+    r12(ctx)
 
 
 def _present_atom(name, f, node_vars):
@@ -503,3 +505,17 @@ def r11(ctx):
               'notifier add and delete both resolve the key with the exact lookup',
               'trie_notify_del resolves the key with exact_match=%s but trie_notify_add with %s: deleting a notifier for a key that ends inside another key\'s segment '
               'removes that other key\'s notifier' % (sorted(modes['trie_notify_del'], key=str), sorted(modes['trie_notify_add'], key=str)))
+
+
+def r12(ctx):
+    prog = ctx.prog
+    MUT = {'qb_list_del', 'qb_list_add', 'qb_list_add_tail', 'qb_list_splice', 'qb_list_splice_tail', 'qb_list_replace', 'qb_list_init', 'free', 'malloc', 'calloc', 'realloc'}
+    RECS = {'hash_node', 'hash_table', 'hash_bucket', 'skiplist', 'skiplist_node', 'trie', 'trie_node', 'qb_list_head'}
+    for fn in ('hashtable_lookup', 'hashtable_get', 'skiplist_lookup', 'skiplist_get', 'trie_lookup', 'trie_get'):
+        f = ctx.inl(prog.fn(fn), 2)
+        bad = [ev for ev in f.events('CALL') if ev.callee in MUT]
+        bad += [ev for ev in f.events('STORE') if last_field(ev.lhs) is not None and last_field(ev.lhs)[0] in RECS]
+        ctx.check('R12', '%s:read-only' % fn, not bad, bad[0] if bad else prog.fn(fn),
+                  '%s changes nothing in the map' % fn,
+                  '%s modifies the map while looking a key up (%s): a get issued during an iteration reorders / relinks what the iterator is walking - keys are returned twice or skipped' % (
+                      fn, repr(bad[0])[:90] if bad else ''))
